@@ -20,34 +20,55 @@ Require Import Ctpg.Proofs.SafeCap.
 Require Import Ctpg.Valid.LRProductive.
 Require Import Ctpg.Proofs.CapFormula.
 Require Import Ctpg.Proofs.CapFormulaValid.
+Require Import Ctpg.Model.Buffers.
+Require Import Ctpg.Proofs.BuffersCorrect.
+Require Import Ctpg.Model.Containers.
 From Coq Require Import Permutation.
 
 (* a parse whose stacks never exceed n gives the same result, final state and output with any fixed capacity above n as with unbounded stacks (cstring_buffer vs the other buffers) *)
 Theorem C07_capacity_irrelevant :
   forall (V C : Type) (g : grammar) (tbl : LRGen.table) (opts : options) (buf : list nat) (lexer : bool -> spoint -> list nat -> list lex_event * option (nat * nat)) (term_f : nat -> nat -> nat -> spoint -> V) (err_f : spoint -> V) (rule_f : nat -> C -> list V -> C * V) (n fuel : nat) (c : C), never_above V C g tbl opts buf lexer term_f err_f rule_f n fuel c -> forall n' : nat, n < n' -> run V C g tbl opts buf (Some n') lexer term_f err_f rule_f fuel c = run V C g tbl opts buf None lexer term_f err_f rule_f fuel c.
-Proof. exact capacity_irrelevant. Qed.
+Proof. exact @capacity_irrelevant. Qed.
 Print Assumptions C07_capacity_irrelevant.
 
 (* with a fixed capacity the run either equals the unbounded run or ends in Throw - never a different value *)
 Theorem C07_capacity_too_small_fails_loudly :
-  forall (V C : Type) (g : grammar) (tbl : LRGen.table) (opts : options) (buf : list nat) (lexer : bool -> spoint -> list nat -> list lex_event * option (nat * nat)) (term_f : nat -> nat -> nat -> spoint -> V) (err_f : spoint -> V) (rule_f : nat -> C -> list V -> C * V) (n fuel : nat) (c : C), 0 < n -> fst (fst (run V C g tbl opts buf (Some n) lexer term_f err_f rule_f fuel c)) = Throw \/ run V C g tbl opts buf (Some n) lexer term_f err_f rule_f fuel c = run V C g tbl opts buf None lexer term_f err_f rule_f fuel c.
-Proof. exact capacity_throw_or_same. Qed.
+  forall (V C : Type) (g : grammar) (tbl : LRGen.table) (opts : options) (buf : list nat) (lexer : bool -> spoint -> list nat -> list lex_event * option (nat * nat)) (term_f : nat -> nat -> nat -> spoint -> V) (err_f : spoint -> V) (rule_f : nat -> C -> list V -> C * V) (n fuel : nat) (c : C), 0 < n -> fst (fst (run V C g tbl opts buf (Some n) lexer term_f err_f rule_f fuel c)) = Driver.Throw \/ run V C g tbl opts buf (Some n) lexer term_f err_f rule_f fuel c = run V C g tbl opts buf None lexer term_f err_f rule_f fuel c.
+Proof. exact @capacity_throw_or_same. Qed.
 Print Assumptions C07_capacity_too_small_fails_loudly.
 
 (* and it is Throw exactly when the unbounded run exceeds the capacity *)
 Theorem C07_too_small_is_throw :
-  forall (V C : Type) (g : grammar) (tbl : LRGen.table) (opts : options) (buf : list nat) (lexer : bool -> spoint -> list nat -> list lex_event * option (nat * nat)) (term_f : nat -> nat -> nat -> spoint -> V) (err_f : spoint -> V) (rule_f : nat -> C -> list V -> C * V) (n fuel : nat) (c : C), 0 < n -> ~ never_above V C g tbl opts buf lexer term_f err_f rule_f n fuel c -> fst (fst (run V C g tbl opts buf (Some n) lexer term_f err_f rule_f fuel c)) = Throw.
-Proof. exact capacity_too_small. Qed.
+  forall (V C : Type) (g : grammar) (tbl : LRGen.table) (opts : options) (buf : list nat) (lexer : bool -> spoint -> list nat -> list lex_event * option (nat * nat)) (term_f : nat -> nat -> nat -> spoint -> V) (err_f : spoint -> V) (rule_f : nat -> C -> list V -> C * V) (n fuel : nat) (c : C), 0 < n -> ~ never_above V C g tbl opts buf lexer term_f err_f rule_f n fuel c -> fst (fst (run V C g tbl opts buf (Some n) lexer term_f err_f rule_f fuel c)) = Driver.Throw.
+Proof. exact @capacity_too_small. Qed.
 Print Assumptions C07_too_small_is_throw.
 
 (* hence for tables that pass term_checks, of grammars without empty rules and without error rules, parsing through cstring_buffer (fixed stacks) gives exactly the run of the other buffer kinds, for every input *)
 Theorem C07_cstring_buffer_agrees_without_empty_rules_and_recovery :
-  forall (V C : Type) (g : grammar) (sts : list items) (tbl : LRGen.table) (opts : options) (buf : list nat) (lexer : bool -> spoint -> list nat -> list lex_event * option (nat * nat)) (term_f : nat -> nat -> nat -> spoint -> V) (err_f : spoint -> V) (rule_f : nat -> C -> list V -> C * V), term_checks g sts tbl = true -> no_error_symbol g tbl = true -> empty_rules g = 0 -> lexer_in_range lexer -> forall (fuel : nat) (c : C), run V C g tbl opts buf (Some (cstring_cap g (length buf))) lexer term_f err_f rule_f fuel c = run V C g tbl opts buf None lexer term_f err_f rule_f fuel c /\ fst (fst (run V C g tbl opts buf (Some (cstring_cap g (length buf))) lexer term_f err_f rule_f fuel c)) <> Throw.
-Proof. exact cstring_capacity_suffices_checked. Qed.
+  forall (V C : Type) (g : grammar) (sts : list items) (tbl : LRGen.table) (opts : options) (buf : list nat) (lexer : bool -> spoint -> list nat -> list lex_event * option (nat * nat)) (term_f : nat -> nat -> nat -> spoint -> V) (err_f : spoint -> V) (rule_f : nat -> C -> list V -> C * V), term_checks g sts tbl = true -> no_error_symbol g tbl = true -> empty_rules g = 0 -> lexer_in_range lexer -> forall (fuel : nat) (c : C), run V C g tbl opts buf (Some (cstring_cap g (length buf))) lexer term_f err_f rule_f fuel c = run V C g tbl opts buf None lexer term_f err_f rule_f fuel c /\ fst (fst (run V C g tbl opts buf (Some (cstring_cap g (length buf))) lexer term_f err_f rule_f fuel c)) <> Driver.Throw.
+Proof. exact @cstring_capacity_suffices_checked. Qed.
 Print Assumptions C07_cstring_buffer_agrees_without_empty_rules_and_recovery.
 
 (* runs with extensionally equal lexers and functors are equal: nothing else is observed *)
 Theorem C07_run_depends_only_on_what_it_is_given :
   forall (V C : Type) (g : grammar) (tbl : LRGen.table) (opts : options) (buf : list nat) (cap : option nat) (lexer1 lexer2 : bool -> spoint -> list nat -> list lex_event * option (nat * nat)) (term_f1 term_f2 : nat -> nat -> nat -> spoint -> V) (err_f1 err_f2 : spoint -> V) (rule_f1 rule_f2 : nat -> C -> list V -> C * V), (forall (p : spoint) (c : nat) (rest : list nat), lexer1 (o_verbose opts) p (c :: rest) = lexer2 (o_verbose opts) p (c :: rest)) -> (forall (t a l : nat) (p : spoint), term_f1 t a l p = term_f2 t a l p) -> (forall p : spoint, err_f1 p = err_f2 p) -> (forall (r : nat) (c : C) (args : list V), rule_f1 r c args = rule_f2 r c args) -> forall (fuel : nat) (c : C), run V C g tbl opts buf cap lexer1 term_f1 err_f1 rule_f1 fuel c = run V C g tbl opts buf cap lexer2 term_f2 err_f2 rule_f2 fuel c.
-Proof. exact run_ext. Qed.
+Proof. exact @run_ext. Qed.
 Print Assumptions C07_run_depends_only_on_what_it_is_given.
+
+(* BYTE LEVEL (mirror of namespace buffers, tied to the real classes by kernel-checked observations of every lexeme): for every text and every 0 <= s <= e <= size, cstring_buffer, string_buffer and a string_view_buffer that is a window inside ANY surrounding memory hand out the same lexeme *)
+Theorem C07_buffer_kinds_present_the_same_lexemes :
+  forall (pre text post : list nat) (s e : nat), s <= e -> e <= length text -> cs_get_view (cs_of_literal text) (cs_begin (cs_of_literal text) + s) (cs_begin (cs_of_literal text) + e) = sb_get_view {| sb_str := text |} s e /\ sb_get_view {| sb_str := text |} s e = svb_get_view {| sv_mem := pre ++ text ++ post; sv_off := length pre; sv_len := length text |} (length pre + s) (length pre + e).
+Proof. exact @buffers_agree. Qed.
+Print Assumptions C07_buffer_kinds_present_the_same_lexemes.
+
+(* the whole table of lexemes agrees *)
+Theorem C07_every_lexeme_of_every_buffer_kind :
+  forall pre text post : list nat, all_views (cs_get_view (cs_of_literal text)) 0 (length text) = all_views (sb_get_view {| sb_str := text |}) 0 (length text) /\ all_views (sb_get_view {| sb_str := text |}) 0 (length text) = all_views (svb_get_view {| sv_mem := pre ++ text ++ post; sv_off := length pre; sv_len := length text |}) (length pre) (length text).
+Proof. exact @all_views_agree. Qed.
+Print Assumptions C07_every_lexeme_of_every_buffer_kind.
+
+(* and the same byte under every iterator inside the text *)
+Theorem C07_buffer_kinds_same_extent_and_bytes :
+  forall (pre text post : list nat) (i : nat), i < length text -> cs_deref (cs_of_literal text) i = Ok (nth i text 0) /\ sb_deref {| sb_str := text |} i = Ok (nth i text 0) /\ svb_deref {| sv_mem := pre ++ text ++ post; sv_off := length pre; sv_len := length text |} (length pre + i) = Ok (nth i text 0).
+Proof. exact @deref_agree. Qed.
+Print Assumptions C07_buffer_kinds_same_extent_and_bytes.
